@@ -42,7 +42,15 @@ class EncoderModel:
                 if d.startswith(ENC + "::"):
                     self.writes.setdefault(d, []).append((f, kind, n))
         u16 = [f["qname"] for f in F if f["t"].get("k") == "int" and f["t"].get("bits") == 16]
-        inc = [q for q in u16 if any(k in ("pre++", "post++", "cassign") for _, k, _ in self.writes.get(q, []))]
+        # the counter is the member the public getSequenceCounter() returns (however it is advanced)
+        gsc = fb.fn_opt(ENC + "::getSequenceCounter")
+        inc = []
+        if gsc is not None:
+            rets = gsc.returns()
+            if len(rets) == 1 and isinstance(rets[0].get("e"), dict) and strip_all_casts(rets[0]["e"]).get("field") in u16:
+                inc = [strip_all_casts(rets[0]["e"])["field"]]
+        if not inc:
+            inc = [q for q in u16 if any(k in ("pre++", "post++", "cassign") for _, k, _ in self.writes.get(q, []))]
         if len(u16) != 2 or len(inc) != 1:
             raise Broken("Encoder: cannot bind device id / sequence counter among 16-bit members %s" % u16)
         self.counter = inc[0]
@@ -198,6 +206,15 @@ def rule_counter_writers(res, rid, m):
             okk = f is m.opener
             res.check(okk, rid, "counter:%s:%s" % (f.name.split("::")[-1], kind), n.get("loc"), "pre-increment in the frame opener",
                       "sequence counter incremented outside the frame opener (in %s): frames and counters no longer pair up" % f.name)
+        elif kind == "assign" and const_value(n["r"]) != 0 and f is m.opener:
+            # an explicit successor: must be counter + 1 reduced modulo 2^16 by the conversion to the 16-bit member and by nothing else
+            def syms(x):
+                return "c" if x.get("k") == "member" and x.get("field") == m.counter else None
+            from rules.decoder_rules import _linear
+            form = _linear(f, n["r"], syms)
+            ok = form is not None and form.get("c") == 1 and form.get(1, 0) == 1 and set(form) <= {"c", 1}
+            res.check(ok, rid, "counter:%s:successor" % f.name.split("::")[-1], n.get("loc"), "counter := counter + 1 (wraps modulo 65536 by the member's type)",
+                      "the sequence counter is advanced by `%s`, which is not `counter + 1` modulo 2^16: some value is skipped or repeated at the wrap" % canon(n["r"])[:120])
         elif kind == "assign":
             res.check(const_value(n["r"]) == 0, rid, "counter:%s:%s" % (f.name.split("::")[-1], kind), n.get("loc"), "reset to 0",
                       "sequence counter assigned %s in %s" % (canon(n["r"]), f.name))
@@ -220,7 +237,8 @@ def rule_frame_stamped(res, rid, m):
         stamps = [c for c in f.calls(CH + "::setSequenceCounter")]
         ok = False
         why = "no setSequenceCounter call after the push"
-        incs = [n for ff, k, n in m.writes.get(m.counter, []) if ff is f and k in ("pre++", "post++")]
+        # advances of the counter in the opener: ++counter, or an explicit `counter = <successor>` (its arithmetic is C09-R1's)
+        incs = [n for ff, k, n in m.writes.get(m.counter, []) if ff is f and (k in ("pre++", "post++") or (k == "assign" and const_value(n["r"]) != 0))]
         for s in stamps:
             a = strip_all_casts(s["args"][0])
             d_obj, c_obj = depends(f, s["obj"])
@@ -242,6 +260,13 @@ def rule_frame_stamped(res, rid, m):
         a = strip_all_casts(pb["args"][0]) if pb.get("args") else {}
         while a.get("k") == "construct" and a.get("args"):
             a = strip_all_casts(a["args"][0])
+        if a.get("field") != m.template and a.get("k") == "call":
+            # a lazy accessor: returns (a reference to) the template member on every path
+            g = m.fb.resolve_call(a)
+            if g is not None and g.rec == ENC and g.body is not None:
+                rets = g.returns()
+                if rets and all(isinstance(r.get("e"), dict) and strip_all_casts(r["e"]).get("field") == m.template for r in rets):
+                    a = strip_all_casts(rets[0]["e"])
         res.check(a.get("field") == m.template, rid, "push:template", pb.get("loc"), "every new frame is a copy of the frame template",
                   "a frame is pushed that is not the frame template: %s" % canon(pb["args"][0] if pb.get("args") else None))
 
